@@ -1,6 +1,7 @@
 //! Text-level emulators for the three backends' printed assembly, with a common memory model,
 //! definedness (taint) tracking and an external-call model. See DESIGN §3.3.
 pub mod a64;
+pub mod any;
 pub mod rv64;
 pub mod x86;
 
@@ -124,9 +125,12 @@ pub struct Mem {
 
 impl Mem {
     pub fn new(heap_words: usize) -> Mem {
+        Mem::with_stack(heap_words, STACK_WORDS)
+    }
+    pub fn with_stack(heap_words: usize, stack_words: usize) -> Mem {
         Mem {
             heap: vec![Word::def(0); heap_words],
-            stack: vec![Word::undef(0x5555_5555_5555_5555u64 as i64); STACK_WORDS],
+            stack: vec![Word::undef(0x5555_5555_5555_5555u64 as i64); stack_words],
             heap_high_water: 0,
         }
     }
@@ -134,7 +138,7 @@ impl Mem {
         HEAP_BASE + 8 * self.heap.len() as u64
     }
     pub fn stack_base(&self) -> u64 {
-        STACK_TOP - 8 * STACK_WORDS as u64
+        STACK_TOP - 8 * self.stack.len() as u64
     }
     pub fn in_heap(&self, addr: u64) -> bool {
         addr >= HEAP_BASE && addr < self.heap_end()
@@ -232,6 +236,10 @@ pub struct ArchInfo {
     /// field_offset(Fst, i), field_offset(Snd, i)
     pub field_off: Vec<(i64, i64)>,
     pub jump_length_1: i64,
+    /// scratch registers of the backend (dead at every statement boundary)
+    pub scratch_regs: Vec<usize>,
+    /// byte offset (from SP) of the scratch spill slot, if the backend has one
+    pub scratch_spill: Option<i64>,
 }
 
 /// A uniform, read-only view of a stopped CPU for the monitors.
